@@ -469,9 +469,9 @@ def main():
     sys.path.insert(0, common.HERE)
     import c06_ops  # noqa: F401
 
-    n_legal = 300000 if ck.thorough else 3000
+    n_legal = 200000 if ck.thorough else 3000
     n_mal = 20000 if ck.thorough else 700
-    n_nets = 1200 if ck.thorough else 42
+    n_nets = 900 if ck.thorough else 42
     jobs = min(16, os.cpu_count() or 4)
     ctx = multiprocessing.get_context("fork")
 
